@@ -4,7 +4,7 @@ usage: run_seeded.py [mutant ids...] [--checks C01,C02]  (default: the property 
 Writes seeded/<id>/meta.json['caught_by'] and prints a table. Evidence files are restored afterwards."""
 import sys, os, json, subprocess, shutil, time
 V = os.path.dirname(os.path.dirname(os.path.abspath(__file__)))
-REPO = os.environ.get('VERIF_REPO', REPO)
+REPO = os.environ.get('VERIF_REPO', '/repo')
 args = [a for a in sys.argv[1:] if not a.startswith('--')]
 checks_override = None
 for a in sys.argv[1:]:
